@@ -208,14 +208,22 @@ def oracle_E(ctx, em, qntot):
     truncated = any(a < b for a, b in zip(tr.bond_dims, caps))
     solver = str(rng.choice(["krylov", "RK45"]))
     x = float(rng.choice([0.1, 0.5, 1.0]))
-    n0, e0 = tr.mp_norm, tr.expectation(em.mpo)
+    def observe(s):
+        # norm and energy from the dense vector and the dense Hamiltonian (not the library's own mp_norm / expectation)
+        v = np.asarray(states.dense_of(s)).reshape(-1)
+        return float(np.linalg.norm(v)), float(np.real(np.vdot(v, em.H @ v)))
+
+    n0, e0 = observe(tr)
     cur = tr
     for k in range(1, 6):
         cur = cur.copy()
         cur.evolve_config = EvolveConfig(EvolveMethod.tdvp_ps, ivp_solver=solver, ivp_rtol=1e-9, ivp_atol=1e-11)
         cur = ctx.lib(cur.evolve, em.mpo, x / em.hnorm, normalize=False, what=f"evolve|ps-{solver}|truncated")
-        n1, e1 = cur.mp_norm, cur.expectation(em.mpo)
+        n1, e1 = observe(cur)
         ctx.count("oracle", 2)
+        # ... and the library's own observables agree with the vector it represents
+        ctx.check(abs(cur.norm - n1) <= 1e-9 * max(1.0, n1) and abs(complex(cur.expectation(em.mpo)) * abs(cur.coeff) ** 2 - e1) <= 1e-8 * max(1.0, abs(e1)),
+                  "E|library-norm-or-expectation-differs-from-the-represented-vector", norm=cur.norm, dense_norm=n1)
         ctx.metric_max("E_norm_drift", abs(n1 - n0) / (1e-6 * k))
         ctx.metric_max("E_energy_drift", abs(e1 - e0) / (1e-6 * k))
         ctx.check(abs(n1 - n0) <= 1e-6 * k * max(1.0, n0), f"E|ps-{solver}|norm-not-conserved", step=k, n0=n0, n1=n1, bonds=cur.bond_dims)
